@@ -1,6 +1,7 @@
 /- Driver/C01.lean — line-protocol driver for the C01 check: the identity machine with the
-   configuration extracted into Generated/C01.lean (core: Model/C01Driver.lean). -/
-import PsutilModel.Model.C01Driver
+   configuration extracted into Generated/C01.lean, run over the BYTES of /proc/<pid>/stat with the extracted
+   reader (core: Model/C01Driver.lean + Model/C01StatDriver.lean). -/
+import PsutilModel.Model.C01StatDriver
 import PsutilModel.Model.C01Gen
 
-def main : IO Unit := Psutil.C01.Drv.driverMain Psutil.C01.cfg
+def main : IO Unit := Psutil.C01.Drv.driverMainB Psutil.C01.scfg Psutil.C01.cfg
